@@ -69,7 +69,7 @@ pub fn frame_case() -> impl Strategy<Value = FrameCase> + Clone {
         vec(frag(), 0..=8),
         prop_oneof![2 => Just((0u16, 0u16)), 1 => (0u16..=64, 0u16..=64)],
     )
-        .prop_map(|(framer, items, send, end_close, wsched, lazy, rsched, (rcap, wcap))| FrameCase { framer, items, send, end_close, wsched, lazy, rsched, rcap, wcap })
+        .prop_map(|(framer, items, send, end_close, wsched, lazy, rsched, (rcap, wcap))| FrameCase { framer, items, send, end_close, wsched, lazy, rsched, rcap, wcap, strict: false })
 }
 
 /// building blocks of a hostile stream; assembled for the case's framer
@@ -168,7 +168,7 @@ pub fn hostile_case() -> impl Strategy<Value = HostileCase> + Clone {
     (framer(), prop_oneof![3 => Just(CodecKind::Bytes), 2 => Just(CodecKind::Json)], vec(chunk(), 0..=8), vec(frag(), 0..=8), prop_oneof![2 => Just(0u16), 1 => 0u16..=64])
         .prop_map(|(framer, codec, chunks, rsched, rcap)| {
             let stream = assemble(&framer, &chunks);
-            HostileCase { framer, codec, stream, rsched, rcap }
+            HostileCase { framer, codec, stream, rsched, rcap, strict: false }
         })
 }
 
@@ -192,5 +192,5 @@ pub fn cmsg_case() -> impl Strategy<Value = CmsgCase> + Clone {
         prop_oneof![Just(0u8), Just(0xFFu8), any::<u8>()],
         vec((prop_oneof![Just(0i32), Just(1i32), Just(libc::SOL_SOCKET), any::<i32>()], prop_oneof![Just(libc::SCM_RIGHTS), any::<i32>()], data()).prop_map(|(level, ty, data)| Msg { level, ty, data }), 0..=8),
     )
-        .prop_map(|(buf, prefill, msgs)| CmsgCase { buf, prefill, msgs })
+        .prop_map(|(buf, prefill, msgs)| CmsgCase { buf, prefill, msgs, strict: false })
 }
